@@ -43,9 +43,19 @@ class ConcRunner:
         self.km = KeyMap(base.disk.pickle_protocol)
         self.vm = ValMap(cfg.get('min_file_size', 2 ** 15), base.disk.pickle_protocol)
         self.api = ApiAdapter(diskcache, self.km, self.vm, self.clock)
+        from .dequedriver import DequeApi
+        self.dapi = DequeApi(self.vm)
+        try:
+            from .indexdriver import IndexApi
+            self.iapi = IndexApi(self.km, self.vm)
+        except ImportError:
+            self.iapi = None
         self.disk = base.disk
         for op in cfg.get('init', []):
             self.api.call(base, op['op'], dict(op.get('a', {})), op.get('form', 0))
+        if self.kind == 'deque' and cfg.get('init_items'):
+            dq = diskcache.Deque.fromcache(base)
+            dq.extend([self.vm.to_py(v) for v in cfg['init_items']])
         self.base = base
         self.sched = sched.Scheduler(self.dir, self.snapshot, strategy,
                                      busy_budget=cfg.get('busy_budget', 2))
@@ -58,6 +68,13 @@ class ConcRunner:
         self.nreal = max(program)
 
     def make_handle(self):
+        if self.kind == 'deque':
+            m = self.cfg.get('maxlen', -1)
+            cache = self.dc.Cache(self.dir, timeout=self.timeout, eviction_policy='none')
+            return self.dc.Deque.fromcache(cache, maxlen=None if m == -1 else m)
+        if self.kind == 'index':
+            cache = self.dc.Cache(self.dir, timeout=self.timeout, eviction_policy='none')
+            return self.dc.Index.fromcache(cache)
         if self.kind == 'fanout':
             return self.dc.FanoutCache(self.parent, shards=1, timeout=self.timeout)
         return self.dc.Cache(self.dir, timeout=self.timeout)
@@ -97,7 +114,8 @@ class ConcRunner:
                 mv = -1
             rows.append([mk, mv, exp_model(exp), tag_model(tag), size, fid])
         st = dict(raw('SELECT key, value FROM Settings').fetchall())
-        return {'rows': rows, 'ctr': [st['count'], st['size'], st['hits'], st['misses']]}
+        return {'rows': rows, 'ctr': [st['count'], st['size'], st['hits'], st['misses']],
+                'items': [r[1] for r in sorted(rows, key=lambda r: r[0])]}
 
     def listing(self):
         files = []
@@ -229,8 +247,13 @@ class ConcRunner:
                     if implicit_retry(name, a, op.get('form', 0)):
                         a['retry'] = 1
                     self.sched.emit({'ev': 'call', 'c': cid, 'op': name, 'a': a, 'now': self.clock.tick})
-                    ret = self.api.call(cache, name, {k: v for k, v in a.items() if k != 'retry' or op.get('a', {}).get('retry')},
-                                        op.get('form', 0))
+                    if self.kind == 'deque':
+                        ret = self.dapi.call(cache, name, a)
+                    elif self.kind == 'index':
+                        ret = self.iapi.call(cache, name, a)
+                    else:
+                        ret = self.api.call(cache, name, {k: v for k, v in a.items() if k != 'retry' or op.get('a', {}).get('retry')},
+                                            op.get('form', 0))
                     self.sched.emit({'ev': 'ret', 'c': cid, 'ret': ret})
                     if depth[0] > 0 and self.cfg.get('faulty') and \
                             ret['k'] in ('OSError', 'OperationalError', 'StreamError', 'InterfaceError', 'ProgrammingError'):
@@ -247,7 +270,7 @@ class ConcRunner:
                 got.extend(it)
                 self.sched.emit({'ev': 'ret', 'c': pc, 'ret': R('keys', [self.km.to_model(k) for k in got])})
             if self.shared is None:
-                cache.close()
+                (cache.cache if self.kind in ('deque', 'index') else cache).close()
         return body
 
     def run(self):
@@ -257,6 +280,8 @@ class ConcRunner:
                 self.caches[cid] = cache
                 # per-thread connection is opened (and its pragmas set) before the scheduled part
                 warm = cache.__enter__ if self.kind == 'cache' else (lambda cc=cache: len(cc))
+                if self.kind in ('deque', 'index'):
+                    warm = cache.cache.__enter__
                 self.sched.add_client(cid, self._client(cid, ops), warmup=warm)
             init = self.snapshot(self.base._con)
             init['files'] = self.listing()
@@ -270,6 +295,7 @@ class ConcRunner:
             return {'init': {'policy': self.cfg['policy'], 'cull': self.cfg['cull'],
                              'limit': self.cfg['limit'], 'stats': 1 if self.cfg['stats'] else 0,
                              'rows': init['rows'], 'ctr': init['ctr'], 'files': init['files'],
+                             'items': init['items'], 'maxlen': self.cfg.get('maxlen', -1),
                              'shared': 1 if self.cfg.get('shared') else 0,
                              'faulty': 1 if self.cfg.get('faulty') else 0,
                              'sharded': 1 if self.kind in ('fanout', 'django') else 0},
@@ -282,7 +308,7 @@ class ConcRunner:
         try:
             self.base.close()
             if self.shared is not None:
-                self.shared.close()
+                (self.shared.cache if self.kind in ('deque', 'index') else self.shared).close()
         except Exception:
             pass
         interpose.set_listener(None)
